@@ -117,15 +117,35 @@ fn one(i: usize, seed: u64) -> Out {
     let mask = 1 + (i / (3 * n)) % ((1 << n) - 1);
     let p_out: Vec<usize> = (0..n).filter(|p| mask >> p & 1 == 1).collect();
     let expected = circ::eval_clear(&c, &inputs);
-    let mut case = Case::new(c.clone(), inputs.clone(), p_eval, p_out.clone());
+    // the output set as the caller writes it: sorted, in another order, or (every 6th run, proper subsets only)
+    // with members repeated until the slice is as long as the number of parties
+    let mut p_out_arg = p_out.clone();
+    let repeated = i % 6 == 5 && p_out.len() < n;
+    if repeated {
+        while p_out_arg.len() < n {
+            let k = p_out_arg[rng.random_range(0..p_out_arg.len())];
+            let at = rng.random_range(0..=p_out_arg.len());
+            p_out_arg.insert(at, k);
+        }
+    } else if i % 6 == 2 {
+        p_out_arg.reverse();
+    }
+    let mut case = Case::new(c.clone(), inputs.clone(), p_eval, p_out_arg.clone());
     case = case.with_sched(if i % 2 == 0 { SchedKind::RoundRobin } else { SchedKind::Random }, rng.random());
     let ex = exec_mpc(case);
-    let ok = ex.end == RunEnd::AllFinished
-        && (0..n).all(|p| matches!(&ex.outcomes[p], Outcome::Done(Ok(v)) if *v == if p_out.contains(&p) { expected.clone() } else { vec![] }));
-    let (inspected, violation) = check(&ex.net, &c, p_eval, &p_out, &ex.outcomes);
-    let key = format!("n={n} E={p_eval} O={:?} E_in_O={} feat={}", p_out, p_out.contains(&p_eval), cfg.features());
+    // a slice with repeated members may be refused by every party (as long as nothing was sent) or be
+    // treated as the set it denotes
+    let all_refused = repeated && ex.net.msgs.is_empty() && ex.outcomes.iter().all(|o| matches!(o, Outcome::Done(Err(_))));
+    let ok = all_refused
+        || (ex.end == RunEnd::AllFinished
+            && (0..n).all(|p| matches!(&ex.outcomes[p], Outcome::Done(Ok(v)) if *v == if p_out.contains(&p) { expected.clone() } else { vec![] })));
+    let (inspected, mut violation) = check(&ex.net, &c, p_eval, &p_out, &ex.outcomes);
+    if violation.is_none() && repeated && !ok {
+        violation = Some(("an output set written with repeated members was neither refused up front nor treated as the set it denotes".into(), json!({"p_out_argument": p_out_arg, "outcomes": ex.outcomes.iter().map(outcome_str).collect::<Vec<_>>()})));
+    }
+    let key = format!("n={n} E={p_eval} O={:?} E_in_O={} feat={}", p_out_arg, p_out.contains(&p_eval), cfg.features());
     let non_out: Vec<usize> = (0..n).filter(|p| !p_out.contains(p)).collect();
-    let sample = json!({"n": n, "p_eval": p_eval, "p_out": p_out, "non_output_parties": non_out, "circuit": circ::circ_to_json(&c),
+    let sample = json!({"n": n, "p_eval": p_eval, "p_out": p_out_arg, "non_output_parties": non_out, "circuit": circ::circ_to_json(&c),
         "messages": ex.net.msgs.len(), "opening_and_share_messages_inspected": inspected,
         "outcomes": ex.outcomes.iter().map(outcome_str).collect::<Vec<_>>()});
     Out { key, end: ex.end, ok, inspected, violation, sample, nontrivial: !non_out.is_empty() }
@@ -133,7 +153,7 @@ fn one(i: usize, seed: u64) -> Out {
 
 pub fn run(tier: &str, seed: u64) -> i32 {
     let mut rep = Report::new("C05", tier, seed, "exploration");
-    rep.rule = "honest executions, n=2..4, every evaluator, every non-empty output subset (cycled), circuits whose output registers alias reused registers and input registers. Oracle on the recorded transcript: (i) after a sender's input stage nothing is addressed to a non-output party, (ii) input-stage shares of an output register go only to the owner of that input, (iii) opening messages carry values only at output registers and only to output parties, (iv) non-output parties return an empty vector. distinct = (n, evaluator, output set, features); non-trivial = at least one party is outside the output set".into();
+    rep.rule = "honest executions, n=2..4, every evaluator, every non-empty output subset (cycled; written sorted, reversed, or - every 6th run - with members repeated up to the number of parties, which may be refused by everybody before anything is sent), circuits whose output registers alias reused registers and input registers. Oracle on the recorded transcript: (i) after a sender's input stage nothing is addressed to a non-output party, (ii) input-stage shares of an output register go only to the owner of that input, (iii) opening messages carry values only at output registers and only to output parties, (iv) non-output parties return an empty vector. distinct = (n, evaluator, output set, features); non-trivial = at least one party is outside the output set".into();
     rep.assumptions = vec!["stages are recognised by the engine's phase labels 'labels' / 'masked inputs'".into()];
     let n_runs = if tier == "thorough" { 6000 } else { 1200 };
     let outs = parallel_for(n_runs, threads(), |i| one(i, seed));
